@@ -730,8 +730,8 @@ T('C14', 'sum-mask-from-listed-request', [(F, "        axes = self.domain.axes(a
 K('C05', 'rounds-rounded-up-after-the-split', [(MWEM, "    cliques = []\n    for i in range(1, rounds+1):\n", "    cliques = []\n    rounds = int(np.ceil(rounds))\n    for i in range(1, rounds+1):\n")], 'budget')
 T('C05', 'rounds-rounded-up-before-the-split', [(MWEM, "        rounds = len(data.domain)\n", "        rounds = len(data.domain)\n    rounds = int(np.ceil(rounds))\n")])
 K('C01', 'logz-exit-net-of-the-total', [(GM, "        if logZ: return beliefs[cl].logsumexp()\n", "        if logZ: return beliefs[cl].logsumexp() - np.log(self.total)\n")], 'bp-equations')
-K('C18', 'children-by-cardinality', [(RG, "                    any(set(r2) < set(r3) and set(r3) < set(r1) for r3 in regions):\r\n                    G.add_edge(r1, r2)",
-                                          "                    any(len(r2) < len(r3) and set(r3) < set(r1) for r3 in regions):\r\n                    G.add_edge(r1, r2)")], 'region-structure')
-T('C18', 'children-in-between-test-reordered', [(RG, "                    any(set(r2) < set(r3) and set(r3) < set(r1) for r3 in regions):\r\n                    G.add_edge(r1, r2)",
-                                                     "                    any(set(r3) < set(r1) and set(r3) > set(r2) for r3 in regions):\r\n                    G.add_edge(r1, r2)")])
+K('C18', 'children-by-cardinality', [(RG, "                    any(set(r2) < set(r3) and set(r3) < set(r1) for r3 in regions):\n                    G.add_edge(r1, r2)",
+                                          "                    any(len(r2) < len(r3) and set(r3) < set(r1) for r3 in regions):\n                    G.add_edge(r1, r2)")], 'region-structure')
+T('C18', 'children-in-between-test-reordered', [(RG, "                    any(set(r2) < set(r3) and set(r3) < set(r1) for r3 in regions):\n                    G.add_edge(r1, r2)",
+                                                     "                    any(set(r3) < set(r1) and set(r3) > set(r2) for r3 in regions):\n                    G.add_edge(r1, r2)")])
 
